@@ -329,7 +329,7 @@ func (c *CheckCommand) checkComplexity(cmd *cobra.Command, args []string) (int, 
 		Paths:           args,
 		OutputFormat:    domain.OutputFormatText,
 		OutputWriter:    io.Discard,
-		MinComplexity:   1,
+		MinComplexity:   0, // No filter (1 would be replaced by [output] min_complexity and hide functions from the gate)
 		MaxComplexity:   0, // No filter
 		LowThreshold:    5,
 		MediumThreshold: 9,
